@@ -88,6 +88,27 @@ func (e *vEnv) checkState(merged []bool) {
 		}
 		vAssert(isHead[i] == maximal, "heads-are-the-frontier")
 	}
+	// ... and so are the heads of the field (every non-delete commit writes the field)
+	if e.hasField {
+		fIsHead := make([]bool, n)
+		for _, h := range e.fieldHeadCids() {
+			i := e.indexOfField(h)
+			vAssert(i >= 0, "field-head-is-a-known-commit")
+			if i >= 0 {
+				vAssert(!fIsHead[i], "field-head-listed-once")
+				fIsHead[i] = true
+			}
+		}
+		for i := 0; i < n; i++ {
+			maximal := merged[i] && !e.commits[i].del
+			for j := 0; j < n && maximal; j++ {
+				if j != i && merged[j] && !e.commits[j].del && e.isAncestor(i, j) {
+					maximal = false
+				}
+			}
+			vAssert(fIsHead[i] == maximal, "field-heads-are-the-frontier")
+		}
+	}
 	if !any {
 		return
 	}
